@@ -1,7 +1,7 @@
 import TxdbusModel.Base.ExceptEq
 import TxdbusModel.Proofs.Client.LifecycleLost
 import TxdbusModel.Proofs.Client.LifecycleWalk
-import TxdbusModel.Proofs.Client.Endpoints
+import TxdbusModel.Proofs.Client.EndpointsSpec
 /-!
 Property C09 - connecting always concludes; a lost connection fails all pending work once.
 
@@ -104,9 +104,42 @@ theorem first_reachable_in_order (tagged : List (Endpoint × Outcome)) :
   unfold expectedAttempts at this
   exact this
 
+/-- From the address STRING to the attempts: for a well-formed list whose entries are tagged with the outcome of
+an attempt on them, `connect` on the parsed list tries the entries before the first reachable one, then that one,
+in the order in which they are written. -/
+theorem written_addresses_tried_in_order (env : Env) (tagged : List (SpecEntry × Outcome))
+    (hwf : ∀ t ∈ tagged, t.1.WF) :
+    ∃ eps, getDBusEndpoints env (renderList (tagged.map (·.1))) = .ok eps ∧
+      attempts (run .repaired (connect eps) (tagged.map (fun t => walkEv t.2))) =
+        ((tagged.takeWhile (fun t => !t.2.ok)).map (·.1.endpoint)) ++
+          ((tagged.find? (·.2.ok)).map (·.1.endpoint)).toList := by
+  refine ⟨(tagged.map (·.1)).map SpecEntry.endpoint, ?_, ?_⟩
+  · exact parse_renderList env _ (fun e he => by
+      obtain ⟨t, ht, rfl⟩ := List.mem_map.mp he
+      exact hwf t ht)
+  · have h := (first_reachable_in_order (tagged.map (fun t => (t.1.endpoint, t.2)))).1
+    simp only [List.map_map] at h
+    have e1 : (List.map ((fun x => x.1) ∘ fun t : SpecEntry × Outcome => (t.1.endpoint, t.2)) tagged) =
+        List.map (SpecEntry.endpoint ∘ fun x => x.1) tagged := rfl
+    have e2 : (List.map ((fun t => walkEv t.2) ∘ fun t : SpecEntry × Outcome => (t.1.endpoint, t.2)) tagged) =
+        List.map (fun t => walkEv t.2) tagged := rfl
+    rw [e1, e2] at h
+    rw [List.map_map, h]
+    clear h e1 e2
+    induction tagged with
+    | nil => rfl
+    | cons t rest ih =>
+      cases hb : t.2.ok
+      · simp [List.takeWhile, List.find?, hb]
+        have := ih (fun x hx => hwf x (List.mem_cons_of_mem _ hx))
+        simpa using this
+      · simp [List.takeWhile, List.find?, hb]
+
 /-! ## C09.3  a lost connection fails all pending work once -/
 
-/-- In phase ready (after ANY history, hence for all reaction assignments), the transport close
+/-- In phase ready (after ANY history, hence for all assignments of the six reactions - nothing, new call,
+unregister itself, register another callback, RAISE an exception, obtain a new proxy - to the calls and
+callbacks), the transport close
 `connectionLost(reason)` appends `newLog` to the observable effects, in which
  * every call that was pending has exactly one firing of its Deferred, and that firing is the errback
    with the loss (`.lost` = the reason itself for a user call; IntrospectionFailed wrapping it for the
@@ -172,19 +205,17 @@ theorem endpoint_prefix_table :
     (Txdbus.Gen.C09Endpoints.sessionWord, Txdbus.Gen.C09Endpoints.systemWord) =
       (['s','e','s','s','i','o','n'], ['s','y','s','t','e','m']) := by decide
 
-/-- The bus address list is cut into its entries in listed order: for entries `pieces` (none containing
-';') joined by ';', the parser walks exactly `pieces`, front to back (`entries` conses the endpoint of
-each entry onto those of the later ones), so the order of the endpoint list handed to `connect` - whose
-walk is `first_reachable_in_order` - is the listed order. -/
-theorem address_list_in_listed_order (env : Env) (pieces : List Str) (hne : pieces ≠ [])
-    (hsep : ∀ p ∈ pieces, ';' ∉ p)
-    (hs : joinWith ';' pieces ≠ Txdbus.Gen.C09Endpoints.sessionWord)
-    (hy : joinWith ';' pieces ≠ Txdbus.Gen.C09Endpoints.systemWord) :
-    getDBusEndpoints env (joinWith ';' pieces) = entries env.pid pieces none := by
-  have hsep' : Txdbus.Gen.C09Endpoints.entrySep = ';' := by decide
-  simp only [getDBusEndpoints, hs, hy, if_false, hsep']
-  show entries env.pid (splitOn ';' (joinWith ';' pieces)) none = _
-  rw [splitOn_joinWith ';' pieces hne hsep]
+/-- The parser against the DBus specification's notation (nothing in `SpecEntry`, `render`, `renderList`,
+`endpoint`, `WF` looks at the parser): a well-formed address list - unix path / abstract, tcp, nonce-tcp entries
+whose values contain none of `; , =` and whose ports are non-empty digit strings, joined by ';' - parses to
+exactly the endpoints of its entries, in listed order (no entry dropped, duplicated or reordered).  With
+`first_reachable_in_order` below: the addresses are tried in the order in which they are written. -/
+theorem address_list_in_listed_order (env : Env) (es : List SpecEntry) (hwf : ∀ e ∈ es, e.WF) :
+    getDBusEndpoints env (renderList es) = .ok (es.map SpecEntry.endpoint) :=
+  parse_renderList env es hwf
+
+example : (SpecEntry.nonceTcp ['h'] [1, 2] ['/', 'n']).WF := by simp [SpecEntry.WF, plain]
+example : ∀ e ∈ [SpecEntry.unixPath ['/', 'a'], SpecEntry.tcp ['h'] [8, 0]], e.WF := by simp [SpecEntry.WF, plain]
 
 /-- A three-entry list of the three kinds parses to its entries, in listed order. -/
 theorem endpoints_example :
@@ -309,6 +340,7 @@ theorem prefix_model_violates_hello_without_name :
 #print axioms endpoint_prefix_table
 #print axioms endpoints_example
 #print axioms address_list_in_listed_order
+#print axioms written_addresses_tried_in_order
 #print axioms prefix_model_violates_connect_fires
 #print axioms prefix_model_violates_connect_fires_other
 #print axioms prefix_model_violates_lost_dict_changed_size
